@@ -1271,6 +1271,12 @@ func (fc *FuncCtx) bindLoopVars(fr *Frame, li *loopInfo, st *State, env *Env) {
 				}
 			}
 		}
+		// $variant<n>: value of the variant of loop n at its head in the current iteration of loop n
+		// (a fixed term: usable in the invariants of a loop nested in loop n to carry "the measure has
+		// not grown since the head of the enclosing loop" through the inner loop)
+		if l != li && l.variant != nil {
+			env.vars[fmt.Sprintf("$variant%d", l.ordinal)] = SVal{T: l.variant, Typ: tInt}
+		}
 	}
 }
 
